@@ -93,8 +93,10 @@ def style_ignore_next_line_adjusted(r):
 
 @lemma(props=["C04"], types=dict(r=Str), name="comment-style/ignore-file")
 def style_ignore_file(r):
-    """Expected to FAIL (known finding C04-ignore-file-hash-only): only `#` is recognised."""
-    if not (keeps_prefix("# thailint: ignore-file", r) and keeps_prefix("// thailint: ignore-file", r)):
+    """Expected to FAIL (known finding C04-ignore-file-hash-only): only `#` is recognised. Stated for lines that are
+    already lower-case (x.lower() == x), which keeps the uninterpreted `lower` out of the counterexample search."""
+    if not (("# thailint: ignore-file" + r).lower() == "# thailint: ignore-file" + r
+            and ("// thailint: ignore-file" + r).lower() == "// thailint: ignore-file" + r):
         return True
     return call(DM + "has_ignore_directive_marker", "# thailint: ignore-file" + r) \
         and call(DM + "has_ignore_directive_marker", "// thailint: ignore-file" + r)
